@@ -14,6 +14,10 @@ pub enum OpKind {
     Load,
     Store,
     FetchAdd,
+    /// any other read-modify-write (swap, fetch_sub, fetch_max, fetch_min, fetch_or, fetch_and, successful compare_exchange)
+    Rmw,
+    /// a compare_exchange that failed: a load with the failure ordering
+    CasFail,
 }
 
 /// Type of the atomic the operation is applied to.
@@ -133,6 +137,97 @@ impl AtomicUsize {
             }
         }
     }
+
+    fn rmw(&self, val: usize, ord: Ordering, f: impl FnOnce(&std::sync::atomic::AtomicUsize) -> usize) -> usize {
+        match tracer() {
+            None => f(&self.inner),
+            Some(t) => {
+                let op = self.op(OpKind::Rmw, ord, val);
+                t.before(&op);
+                let saw = f(&self.inner);
+                t.after(&op, saw);
+                saw
+            }
+        }
+    }
+
+    pub fn swap(&self, val: usize, ord: Ordering) -> usize {
+        self.rmw(val, ord, |a| a.swap(val, ord))
+    }
+
+    pub fn fetch_sub(&self, val: usize, ord: Ordering) -> usize {
+        self.rmw(val, ord, |a| a.fetch_sub(val, ord))
+    }
+
+    pub fn fetch_max(&self, val: usize, ord: Ordering) -> usize {
+        self.rmw(val, ord, |a| a.fetch_max(val, ord))
+    }
+
+    pub fn fetch_min(&self, val: usize, ord: Ordering) -> usize {
+        self.rmw(val, ord, |a| a.fetch_min(val, ord))
+    }
+
+    pub fn compare_exchange(
+        &self,
+        current: usize,
+        new: usize,
+        success: Ordering,
+        failure: Ordering,
+    ) -> Result<usize, usize> {
+        match tracer() {
+            None => self.inner.compare_exchange(current, new, success, failure),
+            Some(t) => {
+                let op = self.op(OpKind::Rmw, success, new);
+                t.before(&op);
+                let r = self.inner.compare_exchange(current, new, success, failure);
+                match r {
+                    Ok(saw) => t.after(&op, saw),
+                    Err(saw) => t.after(&self.op(OpKind::CasFail, failure, new), saw),
+                }
+                r
+            }
+        }
+    }
+
+    pub fn compare_exchange_weak(
+        &self,
+        current: usize,
+        new: usize,
+        success: Ordering,
+        failure: Ordering,
+    ) -> Result<usize, usize> {
+        self.compare_exchange(current, new, success, failure)
+    }
+
+    pub fn fetch_update(
+        &self,
+        set_order: Ordering,
+        fetch_order: Ordering,
+        mut f: impl FnMut(usize) -> Option<usize>,
+    ) -> Result<usize, usize> {
+        let mut prev = self.load(fetch_order);
+        while let Some(next) = f(prev) {
+            match self.compare_exchange_weak(prev, next, set_order, fetch_order) {
+                x @ Ok(_) => return x,
+                Err(next_prev) => prev = next_prev,
+            }
+        }
+        Err(prev)
+    }
+
+    pub fn into_inner(self) -> usize {
+        self.inner.into_inner()
+    }
+
+    pub fn get_mut(&mut self) -> &mut usize {
+        self.inner.get_mut()
+    }
+}
+
+impl Default for AtomicUsize {
+    fn default() -> Self {
+        Self::new(0)
+    }
 }
 
 impl From<usize> for AtomicUsize {
@@ -188,6 +283,77 @@ impl AtomicBool {
                 t.after(&op, val as usize);
             }
         }
+    }
+
+    fn rmw(&self, val: bool, ord: Ordering, f: impl FnOnce(&std::sync::atomic::AtomicBool) -> bool) -> bool {
+        match tracer() {
+            None => f(&self.inner),
+            Some(t) => {
+                let op = self.op(OpKind::Rmw, ord, val as usize);
+                t.before(&op);
+                let saw = f(&self.inner);
+                t.after(&op, saw as usize);
+                saw
+            }
+        }
+    }
+
+    pub fn swap(&self, val: bool, ord: Ordering) -> bool {
+        self.rmw(val, ord, |a| a.swap(val, ord))
+    }
+
+    pub fn fetch_or(&self, val: bool, ord: Ordering) -> bool {
+        self.rmw(val, ord, |a| a.fetch_or(val, ord))
+    }
+
+    pub fn fetch_and(&self, val: bool, ord: Ordering) -> bool {
+        self.rmw(val, ord, |a| a.fetch_and(val, ord))
+    }
+
+    pub fn compare_exchange(
+        &self,
+        current: bool,
+        new: bool,
+        success: Ordering,
+        failure: Ordering,
+    ) -> Result<bool, bool> {
+        match tracer() {
+            None => self.inner.compare_exchange(current, new, success, failure),
+            Some(t) => {
+                let op = self.op(OpKind::Rmw, success, new as usize);
+                t.before(&op);
+                let r = self.inner.compare_exchange(current, new, success, failure);
+                match r {
+                    Ok(saw) => t.after(&op, saw as usize),
+                    Err(saw) => t.after(&self.op(OpKind::CasFail, failure, new as usize), saw as usize),
+                }
+                r
+            }
+        }
+    }
+
+    pub fn compare_exchange_weak(
+        &self,
+        current: bool,
+        new: bool,
+        success: Ordering,
+        failure: Ordering,
+    ) -> Result<bool, bool> {
+        self.compare_exchange(current, new, success, failure)
+    }
+
+    pub fn into_inner(self) -> bool {
+        self.inner.into_inner()
+    }
+
+    pub fn get_mut(&mut self) -> &mut bool {
+        self.inner.get_mut()
+    }
+}
+
+impl Default for AtomicBool {
+    fn default() -> Self {
+        Self::new(false)
     }
 }
 
